@@ -1,7 +1,7 @@
 (* C10 - A dry run changes nothing and over-approximates the next build. *)
 From Verif Require Import Base.Prelude Base.Graph Model.Sorter Model.Expr Model.Engine Model.EngineRun.
 From Verif Require Import Proofs.GraphProofs Proofs.SorterProofs Proofs.EngineTask Proofs.EngineLoop
-     Proofs.EngineBuild Proofs.EngineDag Proofs.EngineRefute Proofs.EngineHistory Proofs.EngineDry.
+     Proofs.EngineBuild Proofs.EngineDag Proofs.EngineRefute Proofs.EngineHistory Proofs.EngineDry Proofs.EngineDrySim.
 
 (* a dry-run build starts no task function and leaves every file as it was (the model's
    file map is exactly the set of regular files of the project outside .pytask) *)
@@ -51,9 +51,26 @@ Theorem C10_dry_run_does_not_interfere : forall is_word lower body c ts faults p
   = build is_word lower body c' ts' faults' pref' w.
 Proof. exact dry_run_does_not_interfere. Qed.
 
-(* over-approximation, the step of the induction (PARTIAL: the lockstep induction over the two
-   runs is not done): a task whose function the real build starts, and whose neighbours look to
-   the real build as they looked to the dry run, was announced by the dry run *)
+(* over-approximation: "every task the immediately following real build executes was announced
+   as would be executed by the dry run".  Proved by running the two builds in lockstep
+   (Proofs/EngineDrySim.v) for every graph, selection, marker placement (skip, skipif, persist),
+   force, schedule oracle and failing task functions; stated for builds without a failure limit
+   (with a limit the two runs may stop at different points).  F23 (repaired) was the
+   counterexample found while setting up this proof. *)
+Theorem C10_dry_run_over_approximates :
+  forall is_word lower body c cd ts faults pref w E desel s0,
+  dry_run c = false -> dry_run cd = true -> force cd = force c ->
+  max_fail c = None -> max_fail cd = None ->
+  create_dag is_word lower c ts = DagOk E desel -> create_dag is_word lower cd ts = DagOk E desel ->
+  from_dag (task_ids ts) E (map (fun t => (tid t, tprio t)) ts) = Some s0 ->
+  NoDup (task_ids ts) ->
+  (forall t u, In t ts -> In u ts -> ~ In (tid t) (prods u) /\ ~ In (tid t) (deps u)) ->
+  forall i, In (Start i) (x_log (build is_word lower body c ts faults pref w)) ->
+            In (i, OWould) (x_reports (build is_word lower body cd ts faults pref w)).
+Proof. exact dry_run_over_approximates. Qed.
+
+(* the step of that induction: a task whose function the real build starts, and whose
+   neighbours look to the real build as they looked to the dry run, was announced *)
 Theorem C10_dry_announces_local : forall body c cd E dyn_d dyn_r desel w wr t f,
   dry_run c = false -> dry_run cd = true -> force cd = force c ->
   skipflag t dyn_d desel = skipflag t dyn_r desel ->
@@ -63,6 +80,21 @@ Theorem C10_dry_announces_local : forall body c cd E dyn_d dyn_r desel w wr t f,
   r_out (run_task body cd E dyn_d desel w t f) = OWould.
 Proof. exact dry_announces_local. Qed.
 
+(* non-vacuity: chain 1: 101 -> 111, 2 (persist): 111 -> 112; after a first build 111 is edited by
+   hand; forced dry run announces both, forced real build executes both (the F23 scenario) *)
+Local Open Scope N_scope.
+Example C10_example_announced :
+  let t1 := mkTask 1 1 [101] [111] [] None false [] false 0%Z [] [] in
+  let t2 := mkTask 2 1 [111] [112] [] None false [] true 0%Z [] [] in
+  let cfg := mkConfig false false None None None in
+  let cff := mkConfig true false None None None in
+  let cfd := mkConfig true true None None None in
+  map (fun o => match o with (x, r, l, _, _, _) => (r, l) end)
+      (run_hist [] [] [HSet 101 5; HBuild cfg [t1; t2] [] []; HSet 111 77; HBuild cfd [t1; t2] [] []; HBuild cff [t1; t2] [] []])
+  = [([(1, 0); (2, 0)], [2; 3; 4; 5]); ([(1, 6); (2, 6)], []); ([(1, 0); (2, 0)], [2; 3; 4; 5])].
+Proof. vm_compute. reflexivity. Qed.
+Local Close Scope N_scope.
+
 Print Assumptions C10_dry_run_inert.
 Print Assumptions C10_dry_run_inert_rejected.
 Print Assumptions C10_dry_task_silent.
@@ -70,3 +102,4 @@ Print Assumptions C10_dry_db_only_persist.
 Print Assumptions C10_dry_run_world_unchanged.
 Print Assumptions C10_dry_run_does_not_interfere.
 Print Assumptions C10_dry_announces_local.
+Print Assumptions C10_dry_run_over_approximates.
